@@ -35,10 +35,14 @@ class Puppet:
                     self.outcome = ("ok", res)
                 except CancelledError as e:
                     self.outcome = ("exc", e)
-                    # keep the native bookkeeping tidy; the puppet "swallows" the cancellation
+                    # the puppet "swallows" the cancellation.  Programs that do so may or may not call uncancel():
+                    # Task.cancelling() is a sticky counter, and a primitive must not mistake a task that was cancelled
+                    # at some point in the past for one that is being cancelled now.  Alternate (deterministic).
+                    self.n_swallowed = getattr(self, "n_swallowed", 0) + 1
                     t = asyncio.current_task()
-                    while t.cancelling():
-                        t.uncancel()
+                    if self.n_swallowed % 2 == 0:
+                        while t.cancelling():
+                            t.uncancel()
                 except BaseException as e:  # noqa: BLE001
                     self.outcome = ("exc", e)
         finally:
